@@ -7,6 +7,7 @@ import Autog.Model.Phase5
 import Autog.Model.Layout
 import Autog.Model.Phase3
 import Autog.Model.SinkColoring
+import Autog.Properties.C04
 /-! T-fun: the models run on the phase-boundary snapshots of real `Layout` runs; the result is compared,
     in canonical form, with the next snapshot. Driver side. -/
 
@@ -79,6 +80,11 @@ def tfunLayout (cfg : Cfg) (es : InEdges) (comps : List (List (Int × G))) (real
       if a.nodes.size > 1 && a.layers.size > 1 then
         out := out ++ [cmpG "T:break" ((breakLongEdges a).map forgetOrder) (forgetOrder b)]
         out := out ++ [("K:ordered", orderedOK b, "layer lists are not ordered by LayerPos 0..k-1")]
+        out := out ++ [("K:layersWF", layersWFb b, "a node occurs twice in the layer lists or does not exist")]
+        if cfg.p4 == 0 then
+          match scBlocks b with
+          | .ok (bw, roots) => out := out ++ [("K:sc-blockwidth", blockWideb b bw roots, "a block is narrower than one of its nodes")]
+          | .error e => out := out ++ [("K:sc-blockwidth", false, s!"model error {e}")]
         -- the crossing counter model on the returned order equals the number the code logged
         if logged.isSome then
           match logQ with
